@@ -416,6 +416,11 @@ class SpecMixin(object):
         seq, el = self.iter_as_list(st, base)
         start = it.extra if it.extra is not None else VInt(0)
         return seq, lambda s, i: VTuple([VInt(start.t + i), el(s, i)])
+      if it.how == 'intseq':
+        n, fn = it.extra
+        lst = self.alloc(st, 'list')
+        self.list_set(st, lst, length=n)
+        return lst, lambda s, i: VInt(fn(i))
     raise Unsupported('symbolic iteration over %r' % (it,))
 
   def view_values(self, st, view):
@@ -453,16 +458,22 @@ class SpecMixin(object):
   # ------------------------------------------------------------------ comprehensions / quantifiers
   def symbolic_dictcomp(self, st, e):
     """{k: V(k) for k in <symbolic dict> if C(k)}: pointwise definition of the new dict (key order unspecified)."""
-    if len(e.generators) != 1 or not isinstance(e.generators[0].target, ast.Name) or not isinstance(e.key, ast.Name) \
-        or e.key.id != e.generators[0].target.id:
+    tgt = e.generators[0].target if len(e.generators) == 1 else None
+    items_form = (isinstance(tgt, ast.Tuple) and len(tgt.elts) == 2 and all(isinstance(x, ast.Name) for x in tgt.elts) and
+                  isinstance(e.key, ast.Name) and e.key.id == tgt.elts[0].id)        # {k: V(k, v) for k, v in d.items() if C(k, v)}
+    if len(e.generators) != 1 or not (items_form or (isinstance(tgt, ast.Name) and isinstance(e.key, ast.Name) and e.key.id == tgt.id)):
       raise Unsupported('dict comprehension over a symbolic iterable must have the form {k: v(k) for k in d if c(k)}')
     g = e.generators[0]
     rs = self.eval(st, g.iter)
     if len(rs) != 1 or isinstance(rs[0][1], Raised):
       raise Unsupported('dict comprehension iterable forks')
     st, src = rs[0]
-    if isinstance(src, VIterView) and src.how == 'keys':
+    if isinstance(src, VIterView) and src.how == 'keys' and not items_form:
       src = src.base
+    elif isinstance(src, VIterView) and src.how == 'items' and items_form:
+      src = src.base
+    elif items_form:
+      raise Unsupported('symbolic dict comprehension with a pair target over %r' % (src,))
     if not (isinstance(src, VRef) and src.cls == 'dict'):
       raise Unsupported('symbolic dict comprehension over %r' % (src,))
     k = fresh('dc_k', Val)
@@ -475,7 +486,11 @@ class SpecMixin(object):
       kv = VVal(k)
       if src.keykind is not None and src.keykind.tag in ('str', 'int', 'bytes', 'bool', 'float'):
         s.tags[k.get_id()] = src.keykind.tag
-      s.env[g.target.id] = kv
+      if items_form:
+        s.env[tgt.elts[0].id] = kv
+        s.env[tgt.elts[1].id] = self.from_val(s, z3.Select(self.dict_val(s, src), k), src.elem)
+      else:
+        s.env[g.target.id] = kv
       base = len(s.pc)
       conds = [self.eval_merged_bool(s, c) for c in g.ifs]
       cond = z3.And(z3.Select(self.dict_dom(s, src), k), *conds)
